@@ -13,15 +13,15 @@ from mc.common import HarnessError, Stats, pmap, safe, scratch_dir, rm_scratch
 
 PROPERTY = 'C18'
 LEVEL = 'exploration'
-RULE = ('outrank_task_result_summary on every pairwise_ranks.tsv that is a multiset of <= 3 (quick) / 4 (thorough) rows over: features {f, g, "f AND g", BRAND} '
+RULE = ('outrank_task_result_summary on every pairwise_ranks.tsv that is a multiset of <= 3 (quick) / 4 (thorough) rows over: features {f, label2, "f AND label2", BRAND} '
         'paired with the label in both orientations, a feature-feature row (must be ignored), label-label; scores {-1,0,0.25,1}; plain and '
         '"-(card; cov)"-annotated names; configurations (MI-numba-randomized, order 2), (correlation-Pearson, order 1), (AMI, order 2); '
         'feature_singles.tsv and feature_singles_aggregated.tsv recomputed independently. distinct_nontrivial = files with >= 2 distinct features opposite the label')
 ASSUMPTIONS = ['names containing "-" other than the annotation, a label containing "-", and names pandas reads as missing (NA, None) are outside the alphabet (the file format makes them ambiguous)',
                'when all medians are equal the min-max normalised value (0/0) is not judged']
 
-FEATS = ['f', 'g', 'f AND g', 'BRAND']
-CARD = {'f': '(3; 100)', 'g': '(2; 50)', 'f AND g': '(5; 100)', 'BRAND': '(4; 99)', 'label': '(2; 100)'}
+FEATS = ['f', 'label2', 'f AND label2', 'BRAND']   # 'label2' starts with the label's name: only the name before the first '-' identifies the label
+CARD = {'f': '(3; 100)', 'label2': '(2; 50)', 'f AND label2': '(5; 100)', 'BRAND': '(4; 99)', 'label': '(2; 100)'}
 CONFIGS = [('MI-numba-randomized', 2, True), ('correlation-Pearson', 1, False), ('AMI', 2, False)]
 
 
@@ -30,7 +30,7 @@ def pair_kinds():
     for ft in FEATS:
         ks.append((ft, 'label'))
         ks.append(('label', ft))
-    ks.append(('f', 'g'))
+    ks.append(('f', 'label2'))
     ks.append(('label', 'label'))
     return ks
 
